@@ -334,6 +334,20 @@ func replay(p *Program, cfg *PropConfig, r *oblResult, dir, repo, verif string) 
 	for k := range replayImports {
 		delete(replayImports, k)
 	}
+	if o.Kind == "ensures" {
+		if fc := p.cs.Funcs[r.FR.Key]; fc != nil {
+			ghostGlobals := map[string]bool{}
+			for n := range p.cs.GhostVars {
+				ghostGlobals[n] = true
+			}
+			for i := range fc.Ensures {
+				if strings.HasPrefix(o.Name, r.FR.Key+".ensures."+fc.Ensures[i].Label) && (mentionsAny(fc.Ensures[i].E, ghostGlobals) || strings.Contains(fc.Ensures[i].Src, "old(")) {
+					write("no replay: the clause speaks about ghost state or the pre-state heap, which a concrete run of the function cannot observe; solver output attached")
+					return path, false, "no-replay"
+				}
+			}
+		}
+	}
 	args, model, why := extractInputs(o, fn, r.FR)
 	rf.Model = model
 	if args == nil {
@@ -487,6 +501,13 @@ func checkPostOnConcrete(p *Program, r *oblResult, fn *ssa.Function, args []conc
 	}
 	if clause == nil {
 		return "unknown", "clause not found"
+	}
+	ghostGlobals := map[string]bool{}
+	for n := range p.cs.GhostVars {
+		ghostGlobals[n] = true
+	}
+	if mentionsAny(clause.E, ghostGlobals) || strings.Contains(clause.Src, "old(") {
+		return "unknown", "the clause speaks about ghost state or the pre-state heap, which a concrete run cannot observe"
 	}
 	ctx := newCtx()
 	g := newGen(p, fn, fc, ctx)
